@@ -202,6 +202,10 @@ class C02(Prop):
             if rng.random() < 0.07:
                 lines += self._literal_lines(rng)
                 continue
+            if rng.random() < 0.05:
+                lines.append(mito.cmetv_line(rng.choice(mito.VALUE_KINDS), rng.choice(["math", "math", "auto", "logic"]),
+                                             rng.choice(mito.VALUE_TEXTS)))
+                continue
             if k < 0.04:
                 els = [rng.choice(['"\\/"', '"\\ud83d\\ude00"', '"\\u00e9"', "'a'", '"b"', "1", "2.5", "1e5", "-0", "True",
                                    "None", "[1]", "(1, 2)", '"\\n"', "1_0", "0x1f", '"\\x41"', "true", "pi", "1 + 1"])
@@ -460,6 +464,20 @@ class C02(Prop):
                                f"{len(mito.LITERAL_PAIRS)} fragments a text preprocessor would rewrite x positions x math / "
                                f"logic / auto / tool / transform / digest_glucose / agent; {len(mito.SPELLINGS)} spellings "
                                "Python refuses", "cases": cases})
+        # names bound to values of unusual but legal TYPES (Fraction, Decimal, subclasses of int / str / float / tuple / list,
+        # one-shot iterators, generators, range / map / zip objects, dict views ...), the same as a callable's result and
+        # as a tool's result: "the value Python assigns to that expression with the same allow-listed names"
+        cases = []
+        for kind in mito.VALUE_KINDS:
+            lines = H()
+            for j, src in enumerate(mito.VALUE_TEXTS):
+                forced = "tool" if src.startswith("tv(") else ["math", "auto", "math", "logic"][j % 4]
+                lines.append(mito.cmetv_line(kind, forced, src))
+                if src.startswith("tv("):
+                    lines.append(mito.cmetv_line(kind, "auto", src))
+            cases.append({"lines": lines, "note": f"values of unusual type ({kind})"})
+        spaces.append({"name": f"{len(mito.VALUE_KINDS)} kinds of unusual-but-legal values (bound to a name, returned by a "
+                               f"callable, returned by a tool) x {len(mito.VALUE_TEXTS)} texts", "cases": cases})
         # every allow-listed name with concrete arguments; every operator on concrete operand pairs
         cases, lines = [], None
         srcs = []
@@ -547,7 +565,7 @@ class C02(Prop):
                         out.append(Violation("python_raises_engine_fails", "the failure text (Python raises)", o[:120], i))
                     elif dedupe_truthy(ref.split(" ")[1]) != dedupe_truthy(o.split(" ")[2]):
                         out.append(Violation("nothing_dropped", ref.split(" ")[1][:200], o.split(" ")[2][:200], i))
-            elif t[0] in ("cmet", "cmetn"):
+            elif t[0] in ("cmet", "cmetn", "cmetv"):
                 x = x or {}
                 if x.get("agent_ok_text") is not None and "agent_ref_text" in x:
                     if x["agent_ref_text"] is None:
